@@ -137,7 +137,8 @@ pub fn waitpidx(wpid: i32, block: bool) -> types::WaitStatus {
 
 pub fn wait_fg_job(sh: &mut shell::Shell, gid: i32, pids: &[i32]) -> CommandResult {
     let mut cmd_result = CommandResult::new();
-    let mut count_waited = 0;
+    // members that have exited / been killed, or are currently stopped
+    let mut settled: std::collections::HashSet<i32> = std::collections::HashSet::new();
     let count_child = pids.len();
     if count_child == 0 {
         return cmd_result;
@@ -161,8 +162,12 @@ pub fn wait_fg_job(sh: &mut shell::Shell, gid: i32, pids: &[i32]) -> CommandResu
 
         let pid = ws.get_pid();
         let is_a_fg_child = pids.contains(&pid);
-        if is_a_fg_child && !ws.is_continued() {
-            count_waited += 1;
+        if is_a_fg_child {
+            if ws.is_continued() {
+                settled.remove(&pid);
+            } else {
+                settled.insert(pid);
+            }
         }
 
         if ws.is_exited() {
@@ -185,6 +190,8 @@ pub fn wait_fg_job(sh: &mut shell::Shell, gid: i32, pids: &[i32]) -> CommandResu
         } else if ws.is_continued() {
             if !is_a_fg_child {
                 signals::insert_cont_map(pid);
+            } else {
+                sh.mark_job_member_continued(pid, gid);
             }
             continue;
         } else if ws.is_signaled() {
@@ -200,7 +207,7 @@ pub fn wait_fg_job(sh: &mut shell::Shell, gid: i32, pids: &[i32]) -> CommandResu
             cmd_result.status = status;
         }
 
-        if count_waited >= count_child {
+        if settled.len() >= count_child {
             break;
         }
     }
